@@ -106,6 +106,7 @@ Inductive loop_event :=
 | EvUpdate            (* varlist.update(var_samples[i]) *)
 | EvAuthorEval        (* the author's expressions are evaluated with varlist *)
 | EvScrub             (* for key in var_blacklist: del varlist[key] *)
+| EvGuardVariable     (* SumGrader: a student summation variable that is in var_blacklist raises SummationError *)
 | EvStudentEval       (* the student's expressions are evaluated with varlist *)
 | EvRestore.          (* varlist.update(var_samples[i]) again, for the debug output *)
 
